@@ -16,7 +16,10 @@
 
 package safesplit
 
-import "strings"
+import (
+	"strings"
+	"unicode"
+)
 
 // SplitPkgConfigFlags splits a pkg-config outputs string into parts.
 // Each part starts with "-" followed by a single character flag.
@@ -25,6 +28,7 @@ import "strings"
 func SplitPkgConfigFlags(s string) []string {
 	var result []string
 	var current strings.Builder
+	keep := 0 // length of current up to and including the last escaped blank, which must survive trimming
 	i := 0
 
 	// Skip leading whitespace
@@ -35,8 +39,9 @@ func SplitPkgConfigFlags(s string) []string {
 	for i < len(s) {
 		// Start a new part
 		if current.Len() > 0 {
-			result = append(result, strings.TrimSpace(current.String()))
+			result = append(result, trimUnescaped(current.String(), keep))
 			current.Reset()
+			keep = 0
 		}
 		// Write "-" and the flag character
 		current.WriteByte('-')
@@ -62,6 +67,7 @@ func SplitPkgConfigFlags(s string) []string {
 				// Skip backslash and write the escaped space
 				i++
 				current.WriteByte(s[i])
+				keep = current.Len()
 				i++
 				continue
 			}
@@ -87,7 +93,16 @@ func SplitPkgConfigFlags(s string) []string {
 	}
 	// Add the last part
 	if current.Len() > 0 {
-		result = append(result, strings.TrimSpace(current.String()))
+		result = append(result, trimUnescaped(current.String(), keep))
 	}
 	return result
+}
+
+// trimUnescaped trims surrounding white space from a part but keeps the first
+// keep bytes, which end in a blank that was escaped with "\".
+func trimUnescaped(part string, keep int) string {
+	if keep > 0 {
+		return part[:keep] + strings.TrimRightFunc(part[keep:], unicode.IsSpace)
+	}
+	return strings.TrimSpace(part)
 }
